@@ -219,6 +219,7 @@ func c17Generate(c *Ctx, m *Module) {
 	c17MinVersionFold(c, m, gen)
 	// appends to Stacks / Counters
 	nApp := 0
+	var listSites []ssa.Instruction
 	for _, cs := range callsIn(gen, "builtin:append") {
 		cl := cs.(*ssa.Call)
 		base, el, ok := appendedElems(cl)
@@ -230,6 +231,7 @@ func c17Generate(c *Ctx, m *Module) {
 			continue
 		}
 		nApp++
+		listSites = append(listSites, cl)
 		fb := newFormulaBuilder()
 		fb.namer = func(v ssa.Value) (string, bool) {
 			if _, f, ok := fieldLoad(v); ok && f == "Depth" {
@@ -255,6 +257,34 @@ func c17Generate(c *Ctx, m *Module) {
 		r.Check("C17.generate-shape", "generate/"+fld+" entry goes to the record's program", m.Pos(cl.Pos()), strings.Contains(bd, ".Program]") || strings.Contains(bd, "phi:"), "got "+shortDesc(bd))
 	}
 	r.Check("C17.generate-shape", "generate/fold sites", m.Pos(gen.Pos()), nApp == 2, fmt.Sprintf("%d", nApp))
+	// every record is listed: no path from one record to the next avoids both appends
+	if len(listSites) > 0 {
+		var inner *loopInfo
+		for _, l := range naturalLoops(gen) {
+			if l.blocks[listSites[0].Block()] && (inner == nil || len(l.blocks) < len(inner.blocks)) {
+				inner = l
+			}
+		}
+		okAll := inner != nil
+		if inner != nil {
+			var start []walkState
+			for _, sc := range inner.header.Succs {
+				if inner.blocks[sc] {
+					start = append(start, walkState{inner.header, sc, 0})
+				}
+			}
+			isList := func(in ssa.Instruction) bool {
+				for _, f := range listSites {
+					if in == f {
+						return true
+					}
+				}
+				return false
+			}
+			okAll = walkWithout(start, func(in ssa.Instruction) bool { return in == inner.header.Instrs[0] }, isList) == nil
+		}
+		r.Check("C17.generate-shape", "generate/every record is listed", m.Pos(listSites[0].Pos()), okAll, "no path to the next record may skip both the Counters and the Stacks append")
+	}
 
 	// comparator family
 	isTool := "internal/telemetry.IsToolchainProgram"
